@@ -146,7 +146,37 @@ def _has_forced_dup(c, I):
         if len(segs) > k and any(t not in ('0', '1') and not t.startswith('-') for t in segs[k].split()): return True
     return False
 
+def eqf_cases(rng, k):
+    """two histories of the SAME weighted graph with arbitrary double weights: different insertion orders, junk edges of huge weight added and
+    removed, weights set to something else and back - operator== must not look at anything order-dependent (the running total is)"""
+    out = []
+    for _ in range(k):
+        cls = rng.choice(['DW', 'UW']); n = rng.randint(2, 5); und = cls == 'UW'
+        tgt = {}
+        for _ in range(rng.randint(1, 6)):
+            i, j = rng.randrange(n), rng.randrange(n); tgt[(min(i, j), max(i, j)) if und else (i, j)] = _rand_double_hex(rng)
+        def build(t):
+            ops = []; ks = list(t); rng.shuffle(ks)
+            for (i, j) in ks:
+                if und and rng.random() < 0.5: i, j = j, i
+                r = rng.random()
+                if r < 0.3: ops += ['FA %d %d %s' % (i, j, _rand_double_hex(rng)), 'FS %d %d %s' % (i, j, t[(min(i, j), max(i, j)) if und else (i, j)])]
+                elif r < 0.5: ops += ['FA %d %d %s' % (i, j, t[(min(i, j), max(i, j)) if und else (i, j)]), 'FS %d %d 7E37E43C8800759C' % (i, j), 'FS %d %d %s' % (i, j, t[(min(i, j), max(i, j)) if und else (i, j)])]
+                else: ops.append('FA %d %d %s' % (i, j, t[(min(i, j), max(i, j)) if und else (i, j)]))
+                if rng.random() < 0.3:
+                    a, b = rng.randrange(n), rng.randrange(n)
+                    if ((min(a, b), max(a, b)) if und else (a, b)) not in t: ops += ['FA %d %d %s' % (a, b, rng.choice(['7E37E43C8800759C', 'FE37E43C8800759C', _rand_double_hex(rng)])), 'FR %d %d' % (a, b)]
+            return ' ; '.join(ops)
+        t2 = dict(tgt)
+        if rng.random() < 0.35 and t2:
+            kk = rng.choice(sorted(t2))
+            if rng.random() < 0.5: t2.pop(kk)
+            else: t2[kk] = _rand_double_hex(rng)
+        out.append('EQF %s hex %d : %s | %s' % (cls, n, build(tgt), build(t2)))
+    return out
 def gen_C06(rng, tier):
+    return _gen_C06(rng, tier) + eqf_cases(rng, 600 if tier == 'quick' else 8000)
+def _gen_C06(rng, tier):
     n = 2500 if tier == 'quick' else 30000
     out = []
     for _ in range(n):
@@ -156,6 +186,7 @@ def gen_C06(rng, tier):
     return out
 def route_eq(case):
     t = case.split()
+    if t[0] in ('EQF', 'WF', 'DJF'): return 'float'
     return runner.HARNESS_OF_CLASS.get(t[1] if t[0] in ('EQ', 'CV', 'EL') else t[0])
 
 def gen_C09(rng, tier):
@@ -324,11 +355,11 @@ PROPS = {
                   'loaded with loadBinaryEdgeList; graphs built by histories written with writeBinaryEdgeList: the file must be exactly one little-endian record per edge (compared as a '
                   'multiset of records with the model and the spec), then reloaded and compared (==) with the original after resize; every loader and writer on an unopenable path '
                   '(std::runtime_error); non-trivial = at least one record'),
- 'C15': dict(harness='io', gen=gen_C15, shrink=shrink_ops, nontrivial=io_nontrivial, model_name='IOModel loaders on truncated / malformed input',
+ 'C15': dict(harness='io', flags=CXX_QUICK + ['-D_GLIBCXX_ASSERTIONS'], gen=gen_C15, shrink=shrink_ops, nontrivial=io_nontrivial, model_name='IOModel loaders on truncated / malformed input',
              histogram=lambda cases: {'binary_cut_cases': sum(1 for c in cases if c.startswith('BIN ')), 'malformed_text_cases': sum(1 for c in cases if c.startswith('TXT '))},
              rule='EVERY cut offset (0..length) of valid binary files of 0-4 records for all label widths: the loader must return exactly the complete records before the cut; and a '
                   'separate stream of malformed text (blank and one-token lines, non-numeric, negative, overflowing and partly numeric indices, NUL and high bytes, CR, random bytes) mixed '
-                  'into valid files: the loader must return a graph or throw a std::exception; harness under ASan+UBSan (a crash or sanitizer report is a violation); '
+                  'into valid files: the loader must return a graph or throw a std::exception; harness under ASan+UBSan with _GLIBCXX_ASSERTIONS (a crash, sanitizer report or failed library assertion is a violation); '
                   'non-trivial = non-empty input'),
  'C11': dict(harness='paths', impl_timeout=120, gen=gen_C11, shrink=shrink_ops, segments=seg_C11, nontrivial=_path_nontrivial, model_name='PathsModel (BFS, parent walk, stack loop)',
              histogram=lambda cases: {'directed': sum(1 for c in cases if c.startswith('PATH D')), 'undirected': sum(1 for c in cases if c.startswith('PATH U'))},
@@ -359,13 +390,14 @@ PROPS = {
                   '== original; (b) explicit edge lists (duplicates, both orientations, loops, index gaps, empty) given to the constructors of all eight classes through vector, list, deque, '
                   'forward_list (and set for unlabelled): all observers of the result, and agreement between containers; compared with the Coq model and the spec images; '
                   'non-trivial = case with at least two operations / edges'),
- 'C06': dict(harness=['classes', 'multi'], gen=gen_C06, route=route_eq, coq_term=G.coq_term_eq, coq_imports=MW_IMPORTS, shrink=shrink_ops,
+ 'C06': dict(harness=['classes', 'multi', 'float'], gen=gen_C06, route=route_eq, coq_term=lambda c: None if c.startswith('EQF') else G.coq_term_eq(c), coq_imports=MW_IMPORTS, shrink=shrink_ops,
              histogram=lambda cases: {'equal_verdicts': 0},
              nontrivial=lambda c, I: any(l.startswith('I ') for l in I) and ';' in c, model_name='DirectedModel.graph_eqb (operator==) on the final states of two histories',
              rule='pairs of histories on each of the eight graph classes (six implementations x label kinds) from the same initial size: (i) two DIFFERENT constructions of the same '
                   'target graph (shuffled insertion order, flipped undirected orientations, junk edges removed by removeEdge / removeVertexFromEdgeList / removeSelfLoops / clearEdges, '
                   'relabel / setEdgeWeight / multiplicity detours, re-creation under another value), (ii) targets differing in exactly one edge, one label or the size, (iii) random pairs; '
                   'compared: g==h, h==g, g!=h, h!=g, reflexivity, copy construction, assignment and independence of copies from later mutation, against the Coq model of operator== and '
+                  'the spec; plus pairs of histories of one weighted graph with ARBITRARY double weights (orders, junk edges of weight 1e300 added and removed, weights set away and back): == must not depend on anything order-dependent such as the running total; '
                   'the spec (same size, same keys, equal values); non-trivial = both histories non-empty'),
  'C16': dict(harness=['classes', 'multi'], gen=gen_C16, driver_args=['fspec'], coq_term=coq_term_any, histogram=G.op_histogram, coq_imports=MW_IMPORTS,
              nontrivial=_has_forced_dup, model_name='force=true branches and removeDuplicateEdges of the six class models',
